@@ -17,7 +17,9 @@ REACH_TARGETS = [('EKF.process_model', 'formak.python:ExtendedKalmanFilter.proce
 LEVEL = "exploration"
 RULE = ("random filter definitions (0-3 controls incl. none, with/without calibration, unequal "
         "per-control noise) x SPD covariances (identity, diagonal, random, near-singular cond<=1e6, "
-        "scaled) x named points; unit kinds: direct calls (+ purity and bitwise idempotence), calls "
+        "scaled; 25% handed over as int64 / float32 arrays) x named points; noise 1e-10..4 incl. Fraction/Rational "
+        "values; unit kinds: direct calls (+ purity, bitwise idempotence, keyword-argument calls, results "
+        "must not share storage, a result fed back in leaves earlier results unchanged), calls "
         "provoked by runtime.ManagedFilter.tick, by SklearnEKFAdapter.transform and by .fit; every "
         "observed process_model call is checked against G P G^T + V M V^T with oracle Jacobians and "
         "the user's noise by name; non-trivial = program with >=1 control and >=2 states; distinct = "
